@@ -101,22 +101,26 @@ Definition kernel_rep (indptr : list nat) (data : list Z) (draws : list (list Z)
             (seq 0 (length indptr - 1)) (Some (data, draws)).
 
 (* ---- the same per vector of the table, through the layout ---- *)
+(* a layout shorter than the table reads as "nothing stored" for the remaining vectors, so the
+   result always has one vector per id *)
 Fixpoint sub_vecs (n : nat) (vs : list (list Z)) (lay : list (list nat)) (draws : list (list Z)) : list (list Z) :=
-  match vs, lay with
-  | v :: vs', ord :: lay' =>
+  match vs with
+  | [] => []
+  | v :: vs' =>
+      let ord := hd [] lay in
       let '(o, draws', _) := sub_seg n (gather 0%Z ord v) draws in
-      scatter 0%Z (length v) ord o :: sub_vecs n vs' lay' draws'
-  | _, _ => []
+      scatter 0%Z (length v) ord o :: sub_vecs n vs' (tl lay) draws'
   end.
 
 Fixpoint rep_vecs (vs : list (list Z)) (lay : list (list nat)) (draws : list (list Z)) : option (list (list Z)) :=
-  match vs, lay with
-  | v :: vs', ord :: lay' =>
+  match vs with
+  | [] => Some []
+  | v :: vs' =>
+      let ord := hd [] lay in
       match rep_seg (gather 0%Z ord v) draws with
       | None => None
-      | Some (o, draws') => option_map (cons (scatter 0%Z (length v) ord o)) (rep_vecs vs' lay' draws')
+      | Some (o, draws') => option_map (cons (scatter 0%Z (length v) ord o)) (rep_vecs vs' (tl lay) draws')
       end
-  | _, _ => Some []
   end.
 
 (* ---- Table.subsample ---- *)
